@@ -394,13 +394,15 @@ Definition sc_obs (d : sc_decl) : list decl :=
   end.
 
 (* ---- the file ---- *)
-(* scala.rs:124 begin_file. The header is written before the panic, but a panic loses the output. *)
+(* scala.rs:124 begin_file. An empty package is Err(io::Error(InvalidInput, "a package name must be provided for
+   Scala ..")) since the /repo fix of the panic! at scala.rs:131; the header was written before, but the CLI
+   writes no file when generation fails. *)
 Definition sc_begin_file : outcome str :=
   let header := if sc_no_version_header cfg then []
                 else lit "/**" ++ sc_nl ++ lit " * Generated by typeshare " ++ sc_version cfg ++ sc_nl ++
                      lit " */" ++ sc_nl in
   match sc_package cfg with
-  | [] => Panic "scala.rs:131"
+  | [] => Err EPackageRequired
   | _ =>
     Ok (header ++
         match sc_rsplit_once sc_ch_dot (sc_package cfg) with
@@ -452,7 +454,7 @@ Definition sc_generate (pd : parsed) : outcome str :=
   Ok (head ++ package_object ++ package).
 
 (* the declarations of a whole file, in output order: (inside the package object, inside the
-   package); same first failure as [sc_generate] (begin_file's panic, then aliases, structs, enums) *)
+   package); same first failure as [sc_generate] (begin_file's error for the empty package, then aliases, structs, enums) *)
 Definition sc_decls (pd : parsed) : outcome (list sc_decl * list sc_decl) :=
   let _ := uc in
   do _ <- sc_begin_file;
